@@ -15,9 +15,10 @@ import (
 func c04Cfg(rng *rand.Rand) hCfg {
 	c := hCfg{NAssoc: 1 + rng.Intn(2), MaxSess: 2 + rng.Intn(5), Steps: 10 + rng.Intn(10), PChoose: 30, PAlloc: 25, PSDF: 50, Canonical: true,
 		MaxPortWidth: 2000, MaxPairs: 2, MaxQER: 2, Negatives: true, SafeQER: true, SamePrecPair: true, UP4: true, EstOnly: true,
-		GNBs:  []string{"198.18.0.10", "198.18.0.11", "198.18.0.12"},
-		Mods:  []string{"upfar", "upfar", "upqer", "cpseid", "uppdr-same"},
-		QFIs:  []uint8{0, 1, 5, 9, 9, 32, 63},
+		GNBs:     []string{"198.18.0.10", "198.18.0.11", "198.18.0.12"},
+		Mods:     []string{"upfar", "upfar", "upqer", "cpseid", "uppdr-same", "rmqer-extra"},
+		ExtraQER: true,
+		QFIs:     []uint8{0, 1, 5, 9, 9, 32, 63},
 	}
 	if rng.Intn(2) == 0 {
 		c.AppFilters = 3 // sessions share application filters on purpose
